@@ -24,6 +24,9 @@ type Universe struct {
 	// KeyScalars lists "Type.field" scalars that are injective in the object number
 	// ("<field>-<Type>-<n>"), usable as entity keys.
 	KeyScalars map[string]bool
+	// SameN lists "Type.field" object fields whose value carries the number of the enclosing
+	// object (a value object that is part of an entity key: '@key(fields: "info { kid }")').
+	SameN map[string]bool
 	// NullEvery / ErrEvery tune how often nullable fields are null and err_ fields fail.
 	NullEvery uint64
 	ErrEvery  uint64
@@ -35,7 +38,7 @@ type Universe struct {
 
 // NewUniverse returns a universe with default tuning.
 func NewUniverse(seed uint64) *Universe {
-	return &Universe{Seed: seed, Requires: map[string]string{}, KeyScalars: map[string]bool{}, NullEvery: 7, ErrEvery: 3, MaxList: 4, Fanout: 5}
+	return &Universe{Seed: seed, Requires: map[string]string{}, KeyScalars: map[string]bool{}, SameN: map[string]bool{}, NullEvery: 7, ErrEvery: 3, MaxList: 4, Fanout: 5}
 }
 
 func (u *Universe) h(parts ...string) uint64 {
@@ -421,6 +424,9 @@ func (e *Exec) complete(t *ast.Type, obj Obj, field, argKey, pos string, subs []
 			concrete = pts[int((seed/7)%uint64(len(pts)))]
 		}
 		child := Obj{Type: concrete.Name, N: int(seed % u.Fanout)}
+		if u.SameN[obj.Type+"."+field] {
+			child.N = obj.N
+		}
 		local := e.Schema.Types[concrete.Name]
 		if local == nil {
 			e.Errors = append(e.Errors, ExecError{Message: "schema lacks runtime type " + concrete.Name, Path: path})
